@@ -136,7 +136,9 @@ func crescentFamily() fw.Family {
 	cs := crescentShapes()
 	return fw.Family{Name: "crescents (two asymmetric curves tangent at a cusp) x 4 directions x 2 orientations x 3 start vertices: CCW and Filling", N: int64(len(cs)),
 		Check: func(i int64, r *fw.R) { checkCrescent(r, cs[i]) },
-		Desc:  func(i int64) string { return oracle.Fmt(cs[i].data()) + " CCW, and Filling inside M-10 -10L-10 10L10 10L10 -10z" }}
+		Desc: func(i int64) string {
+			return oracle.Fmt(cs[i].data()) + " CCW, and Filling inside M-10 -10L-10 10L10 10L10 -10z"
+		}}
 }
 
 // Filling with curved inner contours whose control polygon (or the loose bounds of an arc) pokes
